@@ -12,6 +12,34 @@ use happylock::poisonable::{PoisonError, PoisonGuard, PoisonRef, PoisonResult, P
 use happylock::rwlock::{RwLockReadGuard, RwLockReadRef, RwLockWriteGuard, RwLockWriteRef};
 use happylock::{Keyable, ThreadKey};
 
+thread_local! {
+    /// armed by `BodyOp::ArmBomb`: the next closure value that the library drops on this thread
+    /// has a captured value whose destructor panics
+    pub static BOMB_ARMED: std::cell::Cell<bool> = const { std::cell::Cell::new(false) };
+}
+
+/// Captured by move in every closure handed to a scoped call: a value the closure owns. When
+/// armed its destructor panics once (never on top of an unwind) - wherever the library lets
+/// go of the closure.
+pub struct Bomb;
+impl Drop for Bomb {
+    fn drop(&mut self) {
+        if BOMB_ARMED.with(|b| b.replace(false)) && !std::thread::panicking() {
+            std::panic::resume_unwind(Box::new(crate::interp::Injected));
+        }
+    }
+}
+
+macro_rules! bombed {
+    (|$d:ident| $body:expr) => {{
+        let bomb = $crate::api::Bomb;
+        move |$d| {
+            let _owned = &bomb;
+            $body
+        }
+    }};
+}
+
 pub trait Held {
     fn visit<'x>(&'x mut self, path: &[u8], layers: &mut Vec<bool>) -> PayRef<'x>;
     /// move the holds out of the guard if its type lets safe code do that (see caps.rs)
@@ -270,10 +298,10 @@ impl TargetApi for M {
         match g {}
     }
     fn scoped_lock<'a, K: Keyable, Rt>(&'a self, key: K, f: &dyn Fn(Self::D<'a>) -> Rt) -> Rt {
-        M::scoped_lock(self, key, |d| f(unsafe { widen(d) }))
+        M::scoped_lock(self, key, bombed!(|d| f(unsafe { widen(d) })))
     }
     fn scoped_try_lock<'a, K: Keyable, Rt>(&'a self, key: K, f: &dyn Fn(Self::D<'a>) -> Rt) -> Result<Rt, K> {
-        M::scoped_try_lock(self, key, |d| f(unsafe { widen(d) }))
+        M::scoped_try_lock(self, key, bombed!(|d| f(unsafe { widen(d) })))
     }
     fn scoped_read<'a, K: Keyable, Rt>(&'a self, _: K, _: &dyn Fn(Self::Rd<'a>) -> Rt) -> Rt {
         noread()
@@ -318,16 +346,16 @@ impl TargetApi for R {
         R::unlock_read(g)
     }
     fn scoped_lock<'a, K: Keyable, Rt>(&'a self, key: K, f: &dyn Fn(Self::D<'a>) -> Rt) -> Rt {
-        R::scoped_write(self, key, |d| f(unsafe { widen(d) }))
+        R::scoped_write(self, key, bombed!(|d| f(unsafe { widen(d) })))
     }
     fn scoped_try_lock<'a, K: Keyable, Rt>(&'a self, key: K, f: &dyn Fn(Self::D<'a>) -> Rt) -> Result<Rt, K> {
-        R::scoped_try_write(self, key, |d| f(unsafe { widen(d) }))
+        R::scoped_try_write(self, key, bombed!(|d| f(unsafe { widen(d) })))
     }
     fn scoped_read<'a, K: Keyable, Rt>(&'a self, key: K, f: &dyn Fn(Self::Rd<'a>) -> Rt) -> Rt {
-        R::scoped_read(self, key, |d| f(unsafe { widen(d) }))
+        R::scoped_read(self, key, bombed!(|d| f(unsafe { widen(d) })))
     }
     fn scoped_try_read<'a, K: Keyable, Rt>(&'a self, key: K, f: &dyn Fn(Self::Rd<'a>) -> Rt) -> Result<Rt, K> {
-        R::scoped_try_read(self, key, |d| f(unsafe { widen(d) }))
+        R::scoped_try_read(self, key, bombed!(|d| f(unsafe { widen(d) })))
     }
 }
 
@@ -360,10 +388,10 @@ macro_rules! poison_api_write {
             Poisonable::<$inner>::unlock(unres(g))
         }
         fn scoped_lock<'a, K: Keyable, Rt>(&'a self, key: K, f: &dyn Fn(Self::D<'a>) -> Rt) -> Rt {
-            Poisonable::scoped_lock(self, key, |d| f(d))
+            Poisonable::scoped_lock(self, key, bombed!(|d| f(d)))
         }
         fn scoped_try_lock<'a, K: Keyable, Rt>(&'a self, key: K, f: &dyn Fn(Self::D<'a>) -> Rt) -> Result<Rt, K> {
-            Poisonable::scoped_try_lock(self, key, |d| f(d))
+            Poisonable::scoped_try_lock(self, key, bombed!(|d| f(d)))
         }
     };
 }
@@ -382,10 +410,10 @@ macro_rules! poison_api_read {
             Poisonable::<$inner>::unlock_read(unres(g))
         }
         fn scoped_read<'a, K: Keyable, Rt>(&'a self, key: K, f: &dyn Fn(Self::Rd<'a>) -> Rt) -> Rt {
-            Poisonable::scoped_read(self, key, |d| f(d))
+            Poisonable::scoped_read(self, key, bombed!(|d| f(d)))
         }
         fn scoped_try_read<'a, K: Keyable, Rt>(&'a self, key: K, f: &dyn Fn(Self::Rd<'a>) -> Rt) -> Result<Rt, K> {
-            Poisonable::scoped_try_read(self, key, |d| f(d))
+            Poisonable::scoped_try_read(self, key, bombed!(|d| f(d)))
         }
     };
 }
@@ -483,16 +511,16 @@ macro_rules! coll_api {
                 <$ty>::unlock_read(g)
             }
             fn scoped_lock<'a, K: Keyable, Rt>(&'a self, key: K, f: &dyn Fn(Self::D<'a>) -> Rt) -> Rt {
-                <$ty>::scoped_lock(self, key, |d| f(d))
+                <$ty>::scoped_lock(self, key, bombed!(|d| f(d)))
             }
             fn scoped_try_lock<'a, K: Keyable, Rt>(&'a self, key: K, f: &dyn Fn(Self::D<'a>) -> Rt) -> Result<Rt, K> {
-                <$ty>::scoped_try_lock(self, key, |d| f(d))
+                <$ty>::scoped_try_lock(self, key, bombed!(|d| f(d)))
             }
             fn scoped_read<'a, K: Keyable, Rt>(&'a self, key: K, f: &dyn Fn(Self::Rd<'a>) -> Rt) -> Rt {
-                <$ty>::scoped_read(self, key, |d| f(d))
+                <$ty>::scoped_read(self, key, bombed!(|d| f(d)))
             }
             fn scoped_try_read<'a, K: Keyable, Rt>(&'a self, key: K, f: &dyn Fn(Self::Rd<'a>) -> Rt) -> Result<Rt, K> {
-                <$ty>::scoped_try_read(self, key, |d| f(d))
+                <$ty>::scoped_try_read(self, key, bombed!(|d| f(d)))
             }
         }
     };
